@@ -235,14 +235,30 @@ Definition split_host_port (hp : bytes) : bytes * bytes :=
   (host', port).
 
 (* makeURLKey for a URL with empty Opaque *)
+(* removeDotSegments (RFC 3986 §5.2.4 on the segments of the path; the output segments reversed) *)
+Fixpoint rds (segs : list bytes) (out : list bytes) : list bytes :=
+  match segs with
+  | [] => out
+  | [s] =>
+      if beq s [46] then [] :: out
+      else if beq s [46; 46] then [] :: tl out
+      else s :: out
+  | s :: r =>
+      if beq s [46] then rds r out
+      else if beq s [46; 46] then rds r (tl out)
+      else rds r (s :: out)
+  end.
+Definition remove_dot_segments (p : bytes) : bytes :=
+  match p with
+  | [] => []
+  | c :: r =>
+      let p' := if c =? 47 then r else p in
+      47 :: join [47] (rev (rds (split_on 47 p') []))
+  end.
+
 Definition make_url_key (u : url) : bytes :=
   (* percent-decoding of unreserved characters happens before dot-segment removal *)
-  let escaped := normalize_percent_encoding (u_path u) in
-  let ep := match unescape_path 0 escaped with
-            | Some decoded => if valid_encoded_path escaped then escaped else escape_path decoded
-            | None => u_path u
-            end in
-  let path1 := match escaped_path_of (resolve_path ep []) with Some p => p | None => ep end in
+  let path1 := remove_dot_segments (normalize_percent_encoding (u_path u)) in
   let scheme := u_scheme u in
   let '(host, port0) := split_host_port (u_host u) in
   let defp := default_port scheme in
